@@ -2,6 +2,11 @@ import StrumModel
 import Std.Data.HashMap
 open Strum Strum.Protocol
 
+def styleDebugName : CaseStyle → String
+  | .camel => "CamelCase" | .kebab => "KebabCase" | .mixed => "MixedCase" | .shoutySnake => "ShoutySnakeCase"
+  | .snake => "SnakeCase" | .title => "TitleCase" | .upper => "UpperCase" | .lower => "LowerCase"
+  | .screamingKebab => "ScreamingKebabCase" | .pascal => "PascalCase" | .train => "TrainCase"
+
 abbrev Env := Std.HashMap String EnumDef
 
 def stepLine (env : Env) (line : String) : Env × Option String :=
@@ -18,6 +23,24 @@ def stepLine (env : Env) (line : String) : Env × Option String :=
     match env[id]? with
     | some d => (env, some (runOp d args))
     | none => (env, some "bad-op")
+  | ["case", style, id] =>
+    match decodeStr id with
+    | none => (env, some "bad-line")
+    | some b =>
+      match parseStyle style with
+      | none => (env, some "ERR")
+      | some cs => (env, some (encodeStr (convertCase (some cs) b)))
+  | ["style", s] =>
+    match decodeStr s with
+    | none => (env, some "bad-line")
+    | some b =>
+      match parseStyle (String.ofList (b.map Char.ofNat)) with
+      | none => (env, some "ERR")
+      | some cs => (env, some (styleDebugName cs))
+  | ["snakify", id] =>
+    match decodeStr id with
+    | none => (env, some "bad-line")
+    | some b => (env, some (encodeStr (snakify b)))
   | [""] => (env, none)
   | _ => (env, some "bad-line")
 
